@@ -219,6 +219,12 @@ def search(rec, ctx):
     ]
     for s_ in ctx.shard(EDGE):
         check(rec, {"src": s_, "stream": "semantic-edge"})
+    # expression lists as the whole input (eval mode) and as the Python part of a subprocess word
+    for e in ctx.shard(["x,", "f(a)[0],", "x, y", "*a,", "x, *y, z", "(x,)", "x,\n", "a if b else c,", "lambda: 0,", "$X,", "x, $(ls)"]):
+        check(rec, {"src": e, "mode": "eval", "stream": "expression-lists"})
+        check(rec, {"src": e.strip() + "\n", "stream": "expression-lists"})
+        check(rec, {"src": f"$(echo @({e.strip()}))\n", "stream": "expression-lists"})
+        check(rec, {"src": f"r = ![cmd @({e.strip()}) @$(w {e.strip().split(',')[0]})]\n", "stream": "expression-lists"})
 
     def py(rnd):
         r = rnd.random()
